@@ -100,6 +100,8 @@ type followerController struct {
 	kvFactory   kv.Factory
 	db          kv.DB
 	termOptions kv.TermOptions
+	// termOptionsKnown is false while the term is only known from snapshot chunks
+	termOptionsKnown bool
 
 	ctx              context.Context
 	cancel           context.CancelFunc
@@ -146,6 +148,7 @@ func NewFollowerController(config Config, namespace string, shardId int64, wf wa
 
 	if fc.term != wal.InvalidTerm {
 		fc.status = proto.ServingStatus_FENCED
+		fc.termOptionsKnown = true
 	}
 
 	fc.db.EnableNotifications(fc.termOptions.NotificationsEnabled)
@@ -282,6 +285,7 @@ func (fc *followerController) NewTerm(req *proto.NewTermRequest) (*proto.NewTerm
 	}
 
 	fc.termOptions = kv.ToDbOption(req.Options)
+	fc.termOptionsKnown = true
 	if err := fc.db.UpdateTerm(req.Term, fc.termOptions); err != nil {
 		return nil, err
 	}
@@ -800,12 +804,14 @@ func (fc *followerController) handleSnapshot(stream proto.OxiaLogReplication_Sen
 		return
 	}
 
-	if !hasTermOptions {
-		// Take the options of the term from the snapshot, which carries the ones of the leader. Otherwise
-		// this replica would go on with the defaults, i.e. without recording the notifications.
-		if _, snapshotTermOptions, err := newDb.ReadTerm(); err == nil {
-			fc.termOptions = snapshotTermOptions
-		}
+	// Take the options of the term from the snapshot, which carries the ones of the leader, when this
+	// follower was never told them: either it does not know any term, or it learned the term from the
+	// chunks of an earlier snapshot that was not completed. Otherwise this replica would go on with
+	// the defaults, i.e. without recording the notifications.
+	if snapshotTerm, snapshotTermOptions, err := newDb.ReadTerm(); err == nil &&
+		(!hasTermOptions || (snapshotTerm == fc.term && !fc.termOptionsKnown)) {
+		fc.termOptions = snapshotTermOptions
+		fc.termOptionsKnown = true
 	}
 	newDb.EnableNotifications(fc.termOptions.NotificationsEnabled)
 
